@@ -166,6 +166,9 @@ void tq_swap(TQ *a, TQ *b) {
 
 /* ---------------------------------------------------------------- std::vector<std::thread>, std::thread */
 static void tv_guard(TVEC *v) {
+#ifdef TP_IN_CTOR      /* during construction _threads belongs to the constructing thread: started workers never touch it, nobody else knows the pool yet */
+  return;
+#endif
   if ((void *)v == (void *)&gh_pool->_threads) {
     __CPROVER_assert(!tm.pool_dead, "thread_pool::_threads is used after the pool was destroyed");
     __CPROVER_assert(POOL_LOCKED, "thread_pool::_threads is accessed while the pool mutex is not held"); } }
@@ -195,6 +198,23 @@ void tv_dtor(TVEC *v) {                                  /* the element array it
   if (TV(v)->b != 0 && gh_TK < (cv_i64)TV_N(v))
     __CPROVER_assert(TV(v)->b[gh_TK]._M_id._M_thread == 0, "a joinable std::thread is destroyed (std::terminate): every worker must be joined or detached first"); }
 #endif
+#ifdef CV_HAS_tv_push_back
+/* push_back(std::thread&&): the thread (its id) moves to the end of the list; the list's array is the harness-allocated one (capacity tv_cap) */
+cv_i64 tv_cap;
+void tv_push_back(TVEC *v, THR *t) {
+  tv_guard(v);
+  if (TV(v)->b == 0) { TV(v)->b = gh_tv; TV(v)->e = gh_tv; TV(v)->c = gh_tv + tv_cap; }
+  __CPROVER_assert(TV(v)->b == gh_tv && TV_N(v) < tv_cap, "model bound: capacity of the worker list");
+  TV(v)->e->_M_id._M_thread = t->_M_id._M_thread; t->_M_id._M_thread = 0; TV(v)->e = TV(v)->e + 1; }
+#endif
+#ifdef CV_HAS_thr_ctor
+/* std::thread::thread(F&&): starts a new thread running a copy of the callable; the object becomes joinable (fresh non-zero id, not the caller's) */
+struct tp_ctor_model { cv_i64 n_started; cv_i8 wrong_this; } tc;
+void thr_ctor(THR *t, LAMCTOR *f) {
+  cv_i64 id = nondet_size_t(); __CPROVER_assume(id != 0 && id != gh_me);
+  t->_M_id._M_thread = id; TP_GH_NOWRAP(tc.n_started); tc.n_started++;
+  if (f->this != gh_pool) tc.wrong_this = 1; }
+#endif
 #ifdef CV_HAS_thr_join
 void thr_join(THR *t) {
   __CPROVER_assert(!(gh_lock_depth > 0), "std::thread::join() while holding the pool mutex (the joined worker needs it to leave its loop: deadlock)");
@@ -205,6 +225,7 @@ void thr_join(THR *t) {
 #endif
 #ifdef CV_HAS_thr_detach
 void thr_detach(THR *t) {
+  __CPROVER_assert(!(gh_lock_depth > 0), "std::thread::detach() while holding the pool mutex (thread management belongs outside the critical section)");
   if (t == &gh_tv[gh_TK]) __CPROVER_assert(t->_M_id._M_thread != 0, "detach() of a thread that is not joinable (std::system_error) - checked at the tracked index");
   TP_GH_NOWRAP(tt.n_detach); tt.n_detach++; if (t == &gh_tv[gh_TK]) tt.t_detach++;
   t->_M_id._M_thread = 0; }
